@@ -152,9 +152,9 @@ def harnesses(tier):
     from symx.runner import Harness
     Q, D, U = setup()
     hs = []
-    nmax = 4 if tier == "quick" else 5
+    nmax = 4  # n = 5 with the spec-constrained q-values: z3 does not finish the non-linear anchor queries in 60 s
     for n in range(1, nmax + 1):
-        modes = [("function", None)] + ([("ondisk", "pm1"), ("ondisk", "zero"), ("ondisk", "bool")] if n <= 3 else [])
+        modes = [("function", None)] + ([("ondisk", "pm1"), ("ondisk", "zero"), ("ondisk", "bool")] if (n <= 3 or tier == "thorough") else [])
         for mode, enc in modes:
             tdc = "real" if n <= 3 else "spec"
             hs.append(Harness("calibrate[%s%s,n=%d,tdc=%s]" % (mode, "," + enc if enc else "", n, tdc), dict(n=n, mode=mode, encoding=enc, tdc=tdc), sym, real="calibrate",
